@@ -6,12 +6,14 @@ import re
 from common import Inconclusive, add_violations_from_bad, finish, log
 from statechecks import require_actions, count_events, parse_hist, shard, validate_parallel
 
-CORE = ["SN", "IN", "SD", "SS", "SC", "AB", "SB", "TB", "CA", "SU", "AR", "SR", "AL", "AA", "AS", "TS", "FIN", "PRE"]
+LONG_FRAMES = [1023, 1024, 1025, 1026, 1027, 1500, 3000]   # successful inner frames under one outer snapshot
+CORE = ["SN", "IN", "SD", "SS", "GC", "SC", "AB", "SB", "TB", "CA", "SU", "AR", "SR", "AL", "AA", "AS", "TS", "FIN", "PRE"]
 TOKEN = ["AB", "SB", "TB", "TR", "AF", "SF", "TF", "BI", "SU", "CA", "FIN"]     # balance / FT / binding calls, amounts at the balance boundary
 ALL_KINDS = CORE + ["TR", "AF", "SF", "TF", "BI"]
 
 GEN_CFG = """SPECIFICATION %(spec)s
 CONSTANTS
+  LongFrames = {%(frames)s}
   Accounts = {%(accts)s}
   Keys = {%(keys)s}
   MaxDepth = %(depth)d
@@ -29,8 +31,8 @@ FIELDS = ["existence", "empty", "nonce", "code", "codeSize", "codeHash", "storag
 NEVER_RESTORED = {"committedWord"}   # GetCommittedState cannot change inside a transaction: nothing to restore
 
 
-def gen(ctx, spec, accts, keys, depth, kinds, runs=0):
-    cfg = GEN_CFG % dict(spec=spec, accts=", ".join(map(str, accts)), keys=", ".join(map(str, keys)), depth=depth,
+def gen(ctx, spec, accts, keys, depth, kinds, runs=0, frames=()):
+    cfg = GEN_CFG % dict(frames=", ".join(map(str, frames)), spec=spec, accts=", ".join(map(str, accts)), keys=", ".join(map(str, keys)), depth=depth,
                          kinds=", ".join('"%s"' % k for k in kinds), seed=ctx.seed % 1000, runs=runs,
                          dump="Dump" if spec == "GenSpec" else "DeepDump")
     res = ctx.tlc("AccountJournalGen", cfg_text=cfg, timeout=1500)
@@ -66,8 +68,11 @@ def run(ctx):
                  ("GenSpec", [1], [1], 6, ["SU", "AB", "TB", "SN", "CA"], 0),
                  ("DeepSpec", [1, 2], [1, 2], 24, ALL_KINDS, 5000)]
     n_exh = 0
-    for spec, accts, keys, depth, kinds, runs in plans:
-        res, hs = gen(ctx, spec, accts, keys, depth, kinds, runs)
+    # long transactions: an outer snapshot, then N successful inner frames (Snapshot + write each), then the revert
+    plans.append(("GenSpec", [1], [1], 3 if quick else 4, ["LS", "SD", "SS"], 0, LONG_FRAMES))
+    for plan in plans:
+        spec, accts, keys, depth, kinds, runs = plan[:6]
+        res, hs = gen(ctx, spec, accts, keys, depth, kinds, runs, frames=plan[6] if len(plan) > 6 else ())
         gens.append(res)
         hists += hs
         if spec == "GenSpec":
@@ -91,7 +96,7 @@ def run(ctx):
     for tp in traces:
         for k, v in count_events(tp).items():
             kinds[k] = kinds.get(k, 0) + v
-    for k in ALL_KINDS + ["PRE", "SNAP", "REV", "Final", "Reset"]:
+    for k in ALL_KINDS + ["LS", "PRE", "SNAP", "REV", "Final", "Reset"]:
         if not kinds.get(k):
             raise Inconclusive("no %s event was recorded: the check would be vacuous for it" % k)
     # 3. judge every trace against the specification
